@@ -123,7 +123,7 @@ class Generator {
   void emit(std::vector<Op>& ops, const Op& o) { ops.push_back(o); shadow_.step_shadow(o); }
 
   int pick_fn() {
-    static const int w[NFN] = {10, 4, 5, 2, 2, 2, 3, 3};
+    static const int w[NFN] = {10, 4, 5, 2, 2, 2, 3, 3, 3};
     return rng_.pick(w, NFN);
   }
 
@@ -238,6 +238,7 @@ class Generator {
         return o;
       }
       case OP_ABANDON: return mk(k, rng_.below(4));
+      case OP_ASSIGN_SEQ: { Op o = mk(k, rng_.below(12), rng_.below(12)); o.a[2] = rng_.below(3); return o; }
       case OP_WIDE: return mk(k, rng_.below(64), rng_.below(50));
       default: return mk(k, rng_.below(12));
     }
